@@ -23,6 +23,7 @@ def plan(tier, seed, jobs):
 
 
 INTS = re.compile(r"-?\d+")
+NAN = float("nan")  # one object: 'attribute equals value' is false for it even when it is the same object
 ABSENT = "<absent>"  # marker in the tags list: the node has no 'tag' attribute at all (None is a real value)
 
 
@@ -147,7 +148,7 @@ def check_tree(ctx, nodes, tags, ch, s, case, bounds_all=True, rng=None):
                                   observed=repr(r[1])[:200] if r[0] == "exc" else m(r[1]))
                     return False
     # by_attr
-    for value in ("u", "v", "w", 1, None, ["l"]):
+    for value in ("u", "v", "w", 1, None, ["l"], (1, 2), (), NAN):
         for ml in (None, 1, 2, h + 1):
             adm = R.admitted(ch, s, frozenset(), ml)
             exp = [x for x in pre_all if x in adm and tags[x] is not ABSENT and tags[x] == value]
@@ -283,7 +284,7 @@ def run(ctx):
         rng = ctx.rng("rand", r)
         n = rng.randint(7, 25)
         par, _ = gen.random_tree(rng, n)
-        tags = [rng.choice([ABSENT, "u", "v", "w", 1, True, 1.0, None, ["l"]]) for _ in range(n)]
+        tags = [rng.choice([ABSENT, "u", "v", "w", 1, True, 1.0, None, ["l"], (1, 2), (), NAN]) for _ in range(n)]
         variant = ("plain", "getattr", "property")[r % 3]
         ctx.count("C14.variant." + variant)
         nodes = build(par, tags, variant)
